@@ -408,6 +408,17 @@ func c06Run(r *vcore.Run, q c06Req) {
 		}
 		switch kind {
 		case "blob":
+			if st == 206 && q.Method == "GET" {
+				// a partial response describes exactly the bytes it carries
+				var a, b, total int64
+				cr := hd.Get("Content-Range")
+				if _, err := fmt.Sscanf(cr, "bytes %d-%d/%d", &a, &b, &total); err == nil && a == total && b == total-1 && len(body) == 0 {
+					// the one shape HTTP cannot express: a range that starts exactly at the end
+					viol("empty-tail-range-answered-206-with-inverted-Content-Range", "416 with Content-Range: bytes */total (RFC 7233), or a well-formed partial response", cr)
+				} else if err != nil || a > b || b >= total || b-a+1 != int64(len(body)) {
+					viol("Content-Range-disagrees-with-body", fmt.Sprintf("bytes a-b/total with b-a+1 = %d and b < total", len(body)), cr)
+				}
+			}
 			if q.Method == "GET" || q.Method == "HEAD" {
 				needDigest()
 				if hd.Get("Content-Length") == "" {
@@ -557,7 +568,9 @@ func c06Requests(thorough bool) []c06Req {
 		"digest=", "digest=" + d, "digest=sha256:xyz", "digest=" + c06UpperDigest, "mount=" + c06UpperDigest + "&from=a", "mount=" + d, "mount=" + d + "&from=a", "mount=" + d + "&from=A!", "mount=bad&from=a", "from=a", "digest=" + d + "&mount=" + d,
 		"%zz", "a=b;c=d", "n=1&n=2"}
 	hmenu := map[string][]string{
-		"Range":          {"bytes=0-0", "bytes=0-", "bytes=1-3", "bytes=3-1", "bytes=-1", "bytes=9-", "bytes=0-0,2-3", "garbage", "bytes=", "bytes=a-b", "bytes=0-99999999999999999999"},
+		// the stored blob is "hello" (5 bytes): last-byte positions just below, at and beyond the size
+		"Range": {"bytes=0-0", "bytes=0-", "bytes=1-3", "bytes=3-1", "bytes=-1", "bytes=9-", "bytes=0-0,2-3", "garbage", "bytes=", "bytes=a-b", "bytes=0-99999999999999999999",
+			"bytes=0-3", "bytes=0-4", "bytes=0-5", "bytes=1-5", "bytes=4-4", "bytes=4-5", "bytes=5-5", "bytes=5-", "bytes=4-", "bytes=2-6"},
 		"Content-Range":  {"0-0", "0-1", "2-3", "1-0", "5-4", "3-1", "garbage", "-", "0-", "-5", "0-99999999999999999999", "2-6"},
 		"Content-Length": {"0", "1", "5", "x"},
 		"Content-Type":   {mtOpaque, mtImage, mtIndex, "garbage", "application/vnd.oci.image.manifest.v1+json; charset=utf-8"},
